@@ -137,6 +137,9 @@ func (spm *BasePublicMaterial[E, S]) UnmarshalCBOR(data []byte) error {
 	if err != nil {
 		return errs.Wrap(err).WithMessage("failed to unmarshal BasePublicMaterial")
 	}
+	if dto == nil {
+		return ErrInvalidArgument.WithMessage("BasePublicMaterial cannot be null")
+	}
 	out, err := NewBasePublicMaterial(dto.MSP, dto.VerificationVector)
 	if err != nil {
 		return errs.Wrap(err).WithMessage("failed to create BasePublicMaterial from deserialized data")
@@ -244,6 +247,9 @@ func (sh *BaseShard[E, S]) UnmarshalCBOR(data []byte) error {
 	dto, err := serde.UnmarshalCBOR[*baseShardDTO[E, S]](data)
 	if err != nil {
 		return errs.Wrap(err).WithMessage("failed to unmarshal BaseShard")
+	}
+	if dto == nil {
+		return ErrInvalidArgument.WithMessage("BaseShard cannot be null")
 	}
 
 	sh2, err := NewBaseShard(dto.Share, dto.PM.VerificationVector(), dto.PM.MSP())
